@@ -15,3 +15,6 @@ func Emit(comp string, inst interface{}, ev string, kv ...interface{}) {}
 
 // Gate blocks the caller if a gate is installed for point.
 func Gate(point string, kv ...interface{}) {}
+
+// Pick returns a if cond holds and b otherwise.
+func Pick(cond bool, a, b string) string { return "" }
